@@ -583,6 +583,7 @@ class AsyncClient(base_client.BaseClient):
             self.logger.info('Waiting for write loop task to end')
             await self.write_loop_task
         if self.state == 'connected' and self.queue is queue:
+            self.state = 'disconnecting'
             await self._trigger_event(
                 'disconnect', self.reason.TRANSPORT_ERROR, run_async=False)
             try:
@@ -640,6 +641,7 @@ class AsyncClient(base_client.BaseClient):
             self.logger.info('Waiting for write loop task to end')
             await self.write_loop_task
         if self.state == 'connected' and self.queue is queue:
+            self.state = 'disconnecting'
             await self._trigger_event(
                 'disconnect', self.reason.TRANSPORT_ERROR, run_async=False)
             try:
